@@ -20,12 +20,14 @@ TECHNIQUE = 'differential monitor source vs. defragmented copy through the real 
 RULE = ('sources from vlib.model.gen_file / build_file with scale graphs; non-trivial = source where some channel has data in >=2 segments, or '
         'contains an empty/untyped channel; distinct = per-segment signatures')
 ASSUMPTIONS = ['group and channel order of the copy is compared too (defragment writes them in source order)']
-REQUIRED = ['copy_compared_with_model', 'defragment_calls', 'channels_compared', 'props_compared', 'scaled_compared', 'dest:path', 'dest:stream', 'index:on', 'empty_or_untyped_channels',
+REQUIRED = ['huge_sources', 'copy_compared_with_model', 'defragment_calls', 'channels_compared', 'props_compared', 'scaled_compared', 'dest:path', 'dest:stream', 'index:on', 'empty_or_untyped_channels',
             'copies_strict_parsed']
 N = {'quick': 2400, 'thorough': 600000}
 
 
 def gen_cases(tier, seed):
+    for i in range(2 if tier == 'quick' else 12):
+        yield {'s': seed * 1000003 + i, 'dest': 'stream' if i % 2 == 0 else 'path', 'index': i % 4 == 1, 'fam': 'huge'}
     for i in range(N[tier]):
         yield {'s': seed * 1000003 + i, 'dest': 'path' if i % 2 else 'stream', 'index': (i // 2) % 2 == 1, 'fam': 'scaled' if i % 4 == 3 else 'model'}
 
@@ -41,6 +43,18 @@ def shard_teardown(ctx):
 
 def build(case):
     rng = random.Random('c10/%d' % case['s'])
+    if case['fam'] == 'huge':
+        # raw data sizes around the block sizes a chunked writer might use: > 16 MiB, exactly 1 MiB, 1 MiB + 1 value
+        t = rng.choice(['f64', 'i32', 'i16'])
+        size = M.TYPES[t][2]
+        big = (2 ** 24) // size + rng.choice([1, 12345, 100000])
+        chans = [('g', 'big', t, big, []), ('g', 'mib', 'f64', 2 ** 17, []), ('g', 'mib1', 'i32', 2 ** 18 + 1, []), ('g', 'small', 'u8', 3, [])]
+
+        def vfh(p, tt, n):
+            dt = M.TYPES[tt][1]
+            return (np.arange(n, dtype='i8') % 251).astype(dt)
+        segs = M.build_file(rng, chans, nseg=1, nchunks=(1,), values_fn=vfh)
+        return segs, rng
     if case['fam'] == 'model':
         segs = M.gen_file(rng, max_segs=8, max_chans=5, p_props=0.5, p_nodata=0.2)
     else:
@@ -100,6 +114,9 @@ def run_case(case, ctx):
         ctx.distinct(tuple(s.signature() for s in segs))
     if degenerate:
         ctx.count('empty_or_untyped_channels')
+    if case['fam'] == 'huge':
+        desc = [{'huge': [(p, ix) for p, ix in segs[0].data_objects()]}]
+        ctx.count('huge_sources')
     ctx.sample({'case': case, 'segments': desc[:2]}, limit=2)
     src_path = os.path.join(ctx.tmpdir, 'src.tdms')
     dst_path = os.path.join(ctx.tmpdir, 'dst.tdms')
